@@ -91,12 +91,6 @@ func (w *world) cfg(label string, h crypto.Hash, ci packet.CipherFunction, comp 
 		DefaultCompressionAlgo: comp, Time: func() time.Time { return now }}
 }
 
-// stepReader counts Read calls (step budget instead of a wall clock).
-type stepReader struct {
-	r     io.Reader
-	steps int
-}
-
 const stepBudget = 1 << 22
 
 // readBody reads r to EOF with buffers of the given size (0: growing buffer as io.ReadAll does).
